@@ -7,9 +7,12 @@ from typing import Dict, List, Optional, Set
 
 from ..calls import lexer_parsers
 from ..cfg import cfg_of
-from ..fold import Unknown, fold_name
+from ..facts import conjuncts, disjuncts, loop_bound_values
+from ..fold import Unknown, fold_in_fn, fold_name
+from ..lexsim import LexerSim, TokenStub
+from ..minieval import Unsupported
 from ..model import AnalysisError, ancestors, parent, text, walk_fn
-from .c05 import _cfg_node_of_expr, _pop_sites, key_value_set
+from .c05 import _cfg_node_of_expr, _early_exit_guards, _pop_sites, _regex_may_match
 
 BASE_KINDS = {"SPACE", "TAB", "NEWLINE", "IDENTIFIER", "CONSTANT", "STRING", "CHAR_CONST", "COMMENT", "MULT_COMMENT"}
 
@@ -27,10 +30,44 @@ def _value_arg(tok: ast.Call):
     return None
 
 
+_ONE_CHAR_DOMAIN = ["\t", "\n", "\r", "\f", "\v"] + [chr(c) for c in range(32, 127)]
+
+
+def _kind_determines_char(prog, fn, popcall):
+    """Interpret the sub-parser on each one-character input: it may discard what it pops iff it pops exactly that one
+    character and the kind of the token it returns is an injective function of the character."""
+    if popcall.args or popcall.keywords:
+        return False, " (the discarded pop takes arguments)"
+    kinds = {}
+    try:
+        for ch in _ONE_CHAR_DOMAIN:
+            sim = LexerSim(prog, ch + "x")
+            out = sim.call(fn.name)
+            if out.kind != "ok":
+                return False, f" ({fn.name} raises {out.exc} on {ch!r})"
+            tok = out.value
+            if tok is None:
+                if sim.pos != 0:
+                    return False, f" ({fn.name} consumes {ch!r} without returning a token)"
+                continue
+            if not isinstance(tok, TokenStub) or sim.pos != 1 or tok.value not in (None, ch):
+                return False, f" (on {ch!r}: token {tok!r}, {sim.pos} character(s) consumed)"
+            kinds.setdefault(tok.type, []).append(ch)
+    except Unsupported as e:
+        raise AnalysisError(f"Lexer.{fn.name} is outside the evaluable subset: {e}")
+    clash = {k: v for k, v in kinds.items() if len(v) > 1}
+    if clash:
+        k, v = sorted(clash.items())[0]
+        return False, f" (the characters {v} all become {k})"
+    return bool(kinds), "" if kinds else " (no one-character input is accepted)"
+
+
+
 def rule_flow(run, prog):
     run.rule("R-10.1", "dataflow: the result of every self.pop() in a sub-parser reaches the value of the returned Token "
              "(accumulator) or the key of the table that yields its kind, on every path; a discarded pop is allowed only "
-             "where the kind was chosen by equality tests on that very character (whitespace)", floor=18)
+             "in a sub-parser that consumes one character and whose token kind determines it (interpreting the sub-parser "
+             "on every one-character input: the accepted characters map to pairwise distinct kinds)", floor=18)
     n = 0
     for fn in lexer_parsers(prog):
         g = cfg_of(fn)
@@ -43,11 +80,27 @@ def rule_flow(run, prog):
                 for x in ast.walk(v):
                     if isinstance(x, ast.Name):
                         acc.add(x.id)
+        # ... and, transitively, the names such an accumulator is built from (val = "".join(chars))
+        carriers = {t.id for m in walk_fn(fn.node) if isinstance(m, ast.Assign) and any(m.value is p_ for p_ in _pop_sites(fn))
+                    for t in m.targets if isinstance(t, ast.Name)}      # char = self.pop(): checked path by path below
+        changed = True
+        while changed:
+            changed = False
+            for m in walk_fn(fn.node):
+                tg = m.targets if isinstance(m, ast.Assign) else [m.target] if isinstance(m, (ast.AugAssign, ast.AnnAssign)) else []
+                if any(isinstance(t, ast.Name) and t.id in acc for t in tg) and getattr(m, "value", None) is not None:
+                    for x in ast.walk(m.value):
+                        if isinstance(x, ast.Name) and isinstance(x.ctx, ast.Load) and x.id not in acc and x.id not in ("self", "str") \
+                                and x.id not in carriers \
+                                and any(isinstance(d, (ast.Assign, ast.AugAssign)) and any(
+                                    isinstance(t2, ast.Name) and t2.id == x.id for t2 in (d.targets if isinstance(d, ast.Assign) else [d.target]))
+                                    for d in walk_fn(fn.node)):
+                            acc.add(x.id)
+                            changed = True
         pop_nodes = {_cfg_node_of_expr(g, p) for p in _pop_sites(fn)}
         for pc in _pop_sites(fn):
             n += 1
             key = f"{fn.key}::pop-flow[{text(pc, 30)}]"
-            p = parent(pc)
             # 1. directly inside a Token(...) value / key
             inside_tok = next((a for a in ancestors(pc) if a in toks), None)
             if inside_tok is not None:
@@ -73,6 +126,11 @@ def rule_flow(run, prog):
                     if isinstance(m, ast.Assign) and any(isinstance(t, ast.Name) and t.id in acc for t in m.targets) \
                             and any(isinstance(x, ast.Name) and x.id == var for x in ast.walk(m.value)):
                         uses.add(g.nid(m))
+                    if isinstance(m, ast.Expr) and isinstance(m.value, ast.Call) and isinstance(m.value.func, ast.Attribute) \
+                            and m.value.func.attr in ("append", "extend") and isinstance(m.value.func.value, ast.Name) \
+                            and m.value.func.value.id in acc \
+                            and any(isinstance(x, ast.Name) and x.id == var for a_ in m.value.args for x in ast.walk(a_)):
+                        uses.add(g.nid(m))
                 for t in toks:
                     if any(isinstance(x, ast.Name) and x.id == var for x in ast.walk(t)):
                         uses.add(_cfg_node_of_expr(g, t))
@@ -85,28 +143,55 @@ def rule_flow(run, prog):
                        f"sub-parser (or to the next pop) neither appends it to the token text nor uses it as the table key",
                        pc, uses=len(uses))
                 continue
+            if isinstance(st, ast.Expr) and isinstance(st.value, ast.Call) and isinstance(st.value.func, ast.Attribute) \
+                    and st.value.func.attr in ("append", "extend") and isinstance(st.value.func.value, ast.Name) \
+                    and st.value.func.value.id in acc and any(x is pc for a in st.value.args for x in ast.walk(a)):
+                run.ob("R-10.1", key, True, "appended to the accumulator", pc)
+                continue
             if isinstance(st, ast.Expr) and st.value is pc:
-                # discarded: whitespace idiom
-                ok = bool(toks) and all(isinstance(t.args[0], ast.Constant) for t in toks)
-                consts = []
-                for t in toks:
-                    g_if = [a for a in ancestors(t) if isinstance(a, ast.If)]
-                    if not g_if or not (isinstance(g_if[0].test, ast.Compare) and isinstance(g_if[0].test.ops[0], ast.Eq)
-                                        and isinstance(g_if[0].test.comparators[0], ast.Constant)):
-                        ok = False
-                    else:
-                        consts.append((g_if[0].test.comparators[0].value, t.args[0].value))
-                ok = ok and len({c for c, _ in consts}) == len(consts) == len({k for _, k in consts}) and not pc.keywords
+                # discarded: allowed when the kind of the returned token determines the popped character
+                ok, why = _kind_determines_char(prog, fn, pc)
                 run.ob("R-10.1", key, ok,
-                       "the result of pop() is discarded although the token kind does not determine the character", pc)
+                       "the result of pop() is discarded although the token kind does not determine the character" + why, pc)
                 continue
             run.ob("R-10.1", key, False, f"pop() result used in an unrecognised way: {text(st)}", pc)
     run.require(n >= 18, f"only {n} pop sites in the sub-parsers (floor 18)")
 
 
+def _assignments(fn, name):
+    out = []
+    for n in walk_fn(fn.node):
+        if isinstance(n, ast.Assign) and any(isinstance(t, ast.Name) and t.id == name for t in n.targets):
+            out.append(n.value)
+        elif isinstance(n, ast.AnnAssign) and isinstance(n.target, ast.Name) and n.target.id == name and n.value is not None:
+            out.append(n.value)
+        elif isinstance(n, ast.NamedExpr) and n.target.id == name:
+            out.append(n.value)
+    return out
+
+
+def _expanded_strings(fn, e, depth=0):
+    """String constants of an expression, local names replaced by what they are assigned from (aliases of a test)."""
+    out = set()
+    for x in ast.walk(e):
+        if isinstance(x, ast.Constant) and isinstance(x.value, str):
+            out.add(x.value)
+        elif isinstance(x, ast.Name) and depth < 3:
+            v = fold_in_fn(x, fn, default=None)
+            if isinstance(v, str):
+                out.add(v)
+            elif isinstance(v, (tuple, list, set, frozenset)):
+                out |= {y for y in v if isinstance(y, str)}
+            else:
+                for val in _assignments(fn, x.id):
+                    out |= _expanded_strings(fn, val, depth + 1)
+    return out
+
+
 def rule_raw_advance(run, prog):
-    run.rule("R-10.2", "every direct advance of the source position outside pop() is the splice skip or is dominated by the "
-             "BAD_LEXEME diagnostic being added (never silently discarded)", floor=2)
+    run.rule("R-10.2", "every direct advance of the source position outside pop() is the splice skip (guarded by a test against "
+             "both spellings of backslash-newline) or is dominated by the BAD_LEXEME diagnostic being added (never silently "
+             "discarded)", floor=2)
     n = 0
     for fn in prog.functions_in("lexer/lexer.py"):
         if fn.name in ("pop", "__init__"):
@@ -117,19 +202,266 @@ def rule_raw_advance(run, prog):
                     [st.target] if isinstance(st, ast.AugAssign) else st.targets)):
                 n += 1
                 key = f"{fn.key}::raw-advance[{text(st, 40)}]"
-                guards = [a for a in ancestors(st) if isinstance(a, ast.If)]
-                splice = any('\\\\\\n' in text(a.test) and "??/" in text(a.test) for a in guards)
+                guards = [a for a in ancestors(st) if isinstance(a, (ast.If, ast.While))]
+                splice = False
+                for a in guards:
+                    strs = _expanded_strings(fn, a.test)
+                    if "\\\n" in strs and "??/\n" in strs:
+                        splice = True
                 if splice:
                     run.ob("R-10.2", key, True, "splice skip (both spellings)", st)
                     continue
-                adds = [g.nid(x) for x in walk_fn(fn.node) if isinstance(x, ast.Expr) and isinstance(x.value, ast.Call)
-                        and text(x.value.func).endswith("errors.add")]
-                errs = [x for x in walk_fn(fn.node) if isinstance(x, ast.Assign) and "BAD_LEXEME" in text(x.value)]
-                ok = bool(errs) and any(a is not None and g.dominates(a, g.nid(st), follow_exc=False) for a in adds)
+                adds = []
+                for x in walk_fn(fn.node):
+                    if isinstance(x, ast.Expr) and isinstance(x.value, ast.Call) and text(x.value.func).endswith(("errors.add", "errors.append")):
+                        strs = _expanded_strings(fn, x.value)
+                        if "BAD_LEXEME" in strs:
+                            adds.append(g.nid(x))
+                ok = any(a is not None and g.dominates(a, g.nid(st), follow_exc=False) for a in adds)
                 run.ob("R-10.2", key, ok,
                        "a character is skipped by advancing the position directly without the BAD_LEXEME diagnostic "
                        "having been recorded on every path", st)
     run.require(n >= 2, f"only {n} raw advances found (floor 2)")
+
+
+# ------------------------------------------------------------------------------------------ R-10.6
+_TRIGGER_CHARS = "\\?<>:%"
+
+
+def _times_arg(popcall):
+    for k in popcall.keywords:
+        if k.arg == "times":
+            return k.value
+    return popcall.args[0] if popcall.args else None
+
+
+class _Origin:
+    """Where a pop count comes from: kind in const / regex / table / raw / unknown."""
+
+    def __init__(self, kind, what="", node=None, subject=None, facts=()):
+        self.kind, self.what, self.node, self.subject, self.facts = kind, what, node, subject, list(facts)
+
+
+def _match_vars(fn):
+    """name -> [RegexConst] for locals bound from applying a compiled pattern (m = P.match(...), m := ...)."""
+    from .c11 import pattern_uses
+    uses, unresolved = pattern_uses(fn)
+    out = {}
+    for u in uses:
+        p_ = parent(u.call)
+        tgt = None
+        if isinstance(p_, ast.NamedExpr):
+            tgt = p_.target
+        elif isinstance(p_, ast.Assign) and len(p_.targets) == 1:
+            tgt = p_.targets[0]
+        if isinstance(tgt, ast.Name):
+            out.setdefault(tgt.id, []).append(u)
+    return out, unresolved
+
+
+def _is_raw_text(fn, e, depth=0) -> Optional[ast.AST]:
+    """The expression is (a slice / a search result of) the raw source text: returns the node that shows it."""
+    for x in ast.walk(e):
+        if isinstance(x, ast.Attribute) and x.attr in ("source", "_source"):
+            return x
+        if isinstance(x, ast.Call) and isinstance(x.func, ast.Attribute) and x.func.attr == "raw_peek":
+            return x
+        if isinstance(x, ast.Attribute) and x.attr.endswith("__pos"):
+            return x
+    if depth < 4:
+        for x in ast.walk(e):
+            if isinstance(x, ast.Name):
+                for val in _assignments(fn, x.id):
+                    got = _is_raw_text(fn, val, depth + 1)
+                    if got is not None:
+                        return got
+    return None
+
+
+def _branch_facts(node):
+    """(condition, truth) pairs known where *node* executes, from the enclosing if statements / conditional expressions."""
+    out = []
+    cur = node
+    for a in ancestors(node):
+        if isinstance(a, ast.If):
+            if any(cur is s for s in a.body):
+                out += [(c, True) for c in conjuncts(a.test)]
+            elif any(cur is s for s in a.orelse):
+                out += [(d, False) for d in disjuncts(a.test)]
+        elif isinstance(a, ast.IfExp):
+            if cur is a.body:
+                out += [(c, True) for c in conjuncts(a.test)]
+            elif cur is a.orelse:
+                out += [(d, False) for d in disjuncts(a.test)]
+        elif isinstance(a, ast.While) and any(cur is s for s in a.body):
+            out += [(c, True) for c in conjuncts(a.test)]
+        if isinstance(a, (ast.FunctionDef, ast.AsyncFunctionDef)):
+            break
+        cur = a
+    return out
+
+
+def _absent_substrings(fn, cond, truth, subject: str) -> Set[str]:
+    """Substrings known not to occur in the text named *subject* when *cond* has the given truth value."""
+    if isinstance(cond, ast.UnaryOp) and isinstance(cond.op, ast.Not):
+        return _absent_substrings(fn, cond.operand, not truth, subject)
+    if isinstance(cond, ast.BoolOp):
+        if (isinstance(cond.op, ast.And) and truth) or (isinstance(cond.op, ast.Or) and not truth):
+            out = set()
+            for v in cond.values:
+                out |= _absent_substrings(fn, v, truth, subject)
+            return out
+        return set()
+    if isinstance(cond, ast.Compare) and len(cond.ops) == 1 and text(cond.comparators[0]) == subject:
+        if (isinstance(cond.ops[0], ast.NotIn) and truth) or (isinstance(cond.ops[0], ast.In) and not truth):
+            v = fold_in_fn(cond.left, fn, default=None)
+            return {v} if isinstance(v, str) and v else set()
+    if isinstance(cond, ast.Call) and isinstance(cond.func, ast.Name) and cond.func.id in ("any", "all") and len(cond.args) == 1 \
+            and isinstance(cond.args[0], (ast.GeneratorExp, ast.ListComp)) and len(cond.args[0].generators) == 1:
+        gen = cond.args[0]
+        g = gen.generators[0]
+        elt = gen.elt
+        if g.ifs or not isinstance(g.target, ast.Name) or not (isinstance(elt, ast.Compare) and len(elt.ops) == 1):
+            return set()
+        if not (isinstance(elt.left, ast.Name) and elt.left.id == g.target.id and text(elt.comparators[0]) == subject):
+            return set()
+        items = fold_in_fn(g.iter, fn, default=None)
+        if isinstance(items, dict):
+            items = list(items)
+        if not isinstance(items, (tuple, list, set, frozenset, str)):
+            return set()
+        items = {x for x in items if isinstance(x, str) and x}
+        if cond.func.id == "any" and isinstance(elt.ops[0], ast.In) and not truth:
+            return items                    # not any(k in S for k in T)
+        if cond.func.id == "all" and isinstance(elt.ops[0], ast.NotIn) and truth:
+            return items                    # all(k not in S for k in T)
+    return set()
+
+
+def _count_origins(fn, e, at, match_vars, depth=0) -> List[_Origin]:
+    """Possible derivations of a pop count expression."""
+    if depth > 5:
+        return [_Origin("unknown", text(e, 40), e)]
+    if isinstance(e, ast.Constant) and isinstance(e.value, int):
+        return [_Origin("const", str(e.value), e)]
+    if isinstance(e, ast.IfExp):
+        return _count_origins(fn, e.body, e.body, match_vars, depth + 1) + _count_origins(fn, e.orelse, e.orelse, match_vars, depth + 1)
+    if isinstance(e, ast.Call) and isinstance(e.func, ast.Name) and e.func.id == "cast" and len(e.args) == 2:
+        return _count_origins(fn, e.args[1], at, match_vars, depth + 1)
+    if isinstance(e, ast.Name):
+        v = fold_in_fn(e, fn, default=None)
+        if isinstance(v, int) and not isinstance(v, bool):
+            return [_Origin("const", str(v), e)]
+        vals = _assignments(fn, e.id)
+        if not vals:
+            for lp in walk_fn(fn.node):
+                if isinstance(lp, ast.For) and any(isinstance(x, ast.Name) and x.id == e.id for x in ast.walk(lp.target)):
+                    return [_Origin("unknown", f"loop variable {e.id}", e)]
+            return [_Origin("unknown", f"{e.id} (parameter or unbound)", e)]
+        out = []
+        for val in vals:
+            out += _count_origins(fn, val, val, match_vars, depth + 1)
+        return out
+    if isinstance(e, ast.BinOp) and isinstance(e.op, (ast.Add, ast.Sub)):
+        return _count_origins(fn, e.left, at, match_vars, depth + 1) + _count_origins(fn, e.right, at, match_vars, depth + 1)
+    # m.end() / m.end() - m.start() / m.span()[1]
+    if isinstance(e, ast.Call) and isinstance(e.func, ast.Attribute) and e.func.attr in ("end", "start") \
+            and isinstance(e.func.value, ast.Name) and e.func.value.id in match_vars:
+        return [_Origin("regex", text(e, 40), e, subject=e.func.value.id)]
+    if isinstance(e, ast.Call) and isinstance(e.func, ast.Name) and e.func.id == "len" and len(e.args) == 1:
+        x = e.args[0]
+        # len(m["Group"]) / len(m.group(..)) / len(m[0])
+        base = x.value if isinstance(x, ast.Subscript) else (x.func.value if isinstance(x, ast.Call) and isinstance(x.func, ast.Attribute)
+                                                            and x.func.attr == "group" else None)
+        if isinstance(base, ast.Name) and base.id in match_vars:
+            return [_Origin("regex", text(e, 40), e, subject=base.id)]
+        v = fold_in_fn(x, fn, default=None)
+        if isinstance(v, str):
+            return [_Origin("table", text(e, 40), e, subject=[v])]
+        if isinstance(x, ast.Name):
+            vs = loop_bound_values(fn, x.id)
+            if vs is not None:
+                return [_Origin("table", text(e, 40), e, subject=sorted(vs))]
+        raw = _is_raw_text(fn, x)
+        if raw is not None:
+            return [_Origin("raw", text(e, 40), e, subject=text(x), facts=_branch_facts(at))]
+        return [_Origin("unknown", text(e, 40), e)]
+    raw = _is_raw_text(fn, e) if not isinstance(e, ast.Name) else None
+    if raw is not None:
+        return [_Origin("raw", text(e, 40), e, subject=None, facts=_branch_facts(at))]
+    return [_Origin("unknown", text(e, 40), e)]
+
+
+def rule_pop_counts(run, prog):
+    run.rule("R-10.6", "pop-count discipline: pop(times=E) counts translated characters, so a non-constant E must be the length "
+             "of text that cannot contain a respellable character or a splice -- the end / a group of a match of a pattern "
+             "that can match none of \\ ? < > : %, or the length of an entry of a folded constant table free of them; a "
+             "length taken from the raw source (file.source, raw_peek, __pos arithmetic) is accepted only where tests on that "
+             "very text exclude the backslash and every trigraph and digraph key; a pop whose count is not proven available "
+             "must not sit in a try whose handler swallows UnexpectedEOF (its partial result would be lost)", floor=2)
+    lx = prog.cls("Lexer")
+    dm = prog.mod("lexer/dictionary.py")
+    try:
+        triggers = ["\\"] + sorted(fold_name("trigraphs", dm)) + sorted(fold_name("digraphs", dm))
+    except Unknown as e:
+        raise AnalysisError(f"lexer tables do not fold: {e}")
+    n = 0
+    for fn in sorted(lx.methods.values(), key=lambda f: f.node.lineno):
+        pops = _pop_sites(fn)
+        if not pops:
+            continue
+        match_vars, unresolved = _match_vars(fn)
+        for pc in pops:
+            te = _times_arg(pc)
+            if te is None or (isinstance(te, ast.Constant) and isinstance(te.value, int)):
+                continue
+            n += 1
+            key = f"{fn.key}::pop-count[{text(te, 30)}]"
+            verdict, why, undecided = True, [], []
+            for o in _count_origins(fn, te, pc, match_vars):
+                if o.kind in ("const",):
+                    continue
+                if o.kind == "regex":
+                    for u in match_vars.get(o.subject, []):
+                        bad = [ch for ch in _TRIGGER_CHARS if _regex_may_match(u.rc.pattern, u.rc.flags, ch)]
+                        if bad:
+                            verdict = False
+                            why.append(f"{o.what}: {u.name} can match {bad}, the matched text may hold a splice or a di-/trigraph")
+                elif o.kind == "table":
+                    bad = sorted(v for v in o.subject if set(v) & set(_TRIGGER_CHARS))
+                    if bad:
+                        verdict = False
+                        why.append(f"{o.what}: table entries {bad} contain a respellable character")
+                elif o.kind == "raw":
+                    absent = set()
+                    if o.subject is not None:
+                        facts = list(o.facts) + [(d, False) for d in _early_exit_guards(fn, pc)] + _branch_facts(pc)
+                        for cond, truth in facts:
+                            absent |= _absent_substrings(fn, cond, truth, o.subject)
+                    open_ = [t for t in triggers if not any(a in t for a in absent)]
+                    if open_:
+                        verdict = False
+                        why.append(f"{o.what} is a raw length used as a count of translated characters; nothing excludes "
+                                   f"{open_[:6]} from that text (a digraph is two raw characters but one popped character)")
+                else:
+                    undecided.append(o.what)
+            if undecided and verdict:
+                run.note(f"R-10.6 undecided: {fn.key} pop(times={text(te, 30)}): origin of {undecided} not classified")
+            run.ob("R-10.6", key, verdict, "; ".join(why), pc, undecided=undecided)
+            # (b) partial result lost
+            if not verdict:
+                tries = [a for a in ancestors(pc) if isinstance(a, ast.Try) and any(x is pc for s_ in a.body for x in ast.walk(s_))]
+                for t in tries:
+                    for h in t.handlers:
+                        names = [text(x).split(".")[-1] for x in (h.type.elts if isinstance(h.type, ast.Tuple) else [h.type])] if h.type else ["*"]
+                        catches = any(nm in ("*", "Exception", "BaseException", "UnexpectedEOF") or prog.is_sub("UnexpectedEOF", nm) for nm in names)
+                        reraises = any(isinstance(x, ast.Raise) for s_ in h.body for x in ast.walk(s_))
+                        if catches and not reraises:
+                            run.ob("R-10.6", f"{fn.key}::bulk-pop-in-try[{text(te, 30)}]", False,
+                                   "this pop takes several characters at once with a count that is not proven available, inside a try "
+                                   "whose handler swallows UnexpectedEOF: when the input ends early the characters already consumed "
+                                   "are dropped from the token", pc)
+    run.require(n >= 2, f"only {n} pops with a computed count found in the Lexer (floor 2)")
 
 
 def rule_tables(run, prog):
@@ -143,7 +475,7 @@ def rule_tables(run, prog):
         except Unknown as e:
             raise AnalysisError(f"lexer table {name} does not fold: {e}")
         # the literal itself must not repeat a key (a later duplicate silently wins)
-        lit = m.assigns[name][0]
+        lit = prog.global_def(m, name)
         keys = [k.value for k in lit.keys if isinstance(k, ast.Constant)] if isinstance(lit, ast.Dict) else []
         dup = sorted({k for k in keys if keys.count(k) > 1})
         vals = list(T[name].values())
@@ -170,32 +502,37 @@ def rule_tables(run, prog):
            f"kind(s) {sorted(set(coll))} are produced by two different tables / collide with a base kind", None)
     # lexer imports exactly these tables
     lm = prog.mod("lexer/lexer.py")
-    ok = all(lm.imports.get(n_) == ("norminette.lexer.dictionary", n_) for n_ in T)
+    ok = all(prog.global_home(lm, n_) is not None and prog.global_home(lm, n_) == prog.global_home(m, n_) for n_ in T)
     run.ob("R-10.3", "lexer/lexer.py::imports-tables", ok, "the lexer does not use the tables of lexer/dictionary.py", None)
 
-    run.rule("R-10.4", "TABLE totality (converse): every key of operators / brackets is producible by some return site of "
-             "parse_operator / parse_brackets (union of the guard-derived key sets)", floor=2)
+    run.rule("R-10.4", "TABLE totality (converse): every key of operators / brackets is produced, whole, by parse_operator / "
+             "parse_brackets interpreted on that key followed by a blank", floor=2)
     for tname, fname in (("operators", "parse_operator"), ("brackets", "parse_brackets")):
         fn = prog.method("Lexer", fname)
         run.require(fn is not None, f"anchor vanished: Lexer.{fname}")
-        union: Set[str] = set()
-        unknown = False
-        for n in walk_fn(fn.node):
-            if isinstance(n, ast.Subscript) and isinstance(n.value, ast.Name) and n.value.id == tname:
-                vs = key_value_set(fn, n.slice, n, T)
-                if vs is None:
-                    unknown = True
-                else:
-                    union |= vs
-        missing = sorted(set(T[tname]) - union)
-        run.ob("R-10.4", f"{fn.key}::covers[{tname}]", not unknown and not missing,
-               f"spelling(s) {missing} of {tname} can never be produced by {fname}: they are tokenized as something else",
-               fn.node, producible=len(union))
+        missing = []
+        spell_keys = list(T["trigraphs"]) + list(T["digraphs"])
+        try:
+            for k in sorted(T[tname]):
+                if any(sp in k for sp in spell_keys):
+                    continue
+                sim = LexerSim(prog, k + " \n")
+                out = sim.call(fname)
+                got = getattr(out.value, "type", None) if out.kind == "ok" else f"raise {out.exc}"
+                if not (got == T[tname][k] and sim.pos == len(k)):
+                    missing.append(f"{k!r} -> {got}")
+        except Unsupported as e:
+            raise AnalysisError(f"Lexer.{fname} is outside the evaluable subset: {e}")
+        run.ob("R-10.4", f"{fn.key}::covers[{tname}]", not missing,
+               f"spelling(s) {missing[:6]} of {tname} can never be produced by {fname}: they are tokenized as something else",
+               fn.node, producible=len(T[tname]) - len(missing))
 
 
 def rule_parsers(run, prog):
-    run.rule("R-10.5", "Lexer.parsers lists every parse_* method; get_next_token returns the first non-empty result and "
-             "reaches the bad-lexeme branch only after all of them", floor=2)
+    run.rule("R-10.5", "Lexer.parsers lists every parse_* method; get_next_token, interpreted with the sub-parsers replaced by "
+             "stubs that log their call and match or not according to a scenario (each one alone, each one and all later "
+             "ones, none for every one-character input), returns the first match without a diagnostic and records BAD_LEXEME "
+             "only after all of them were tried in order, skipping exactly that character", floor=2)
     lx = prog.cls("Lexer")
     listed = [f.name for f in lexer_parsers(prog)]
     defined = sorted(n for n in lx.methods if n.startswith("parse_"))
@@ -205,28 +542,62 @@ def rule_parsers(run, prog):
            f"sub-parser(s) {missing} are not in Lexer.parsers (their lexemes become bad lexemes) / listed twice {dup}",
            lx.attr_nodes.get("parsers"), listed=listed)
     gnt = prog.fn("lexer/lexer.py::Lexer.get_next_token")
-    loops = [n for n in walk_fn(gnt.node) if isinstance(n, ast.For) and text(n.iter) == "self.parsers"]
-    ok = len(loops) == 1
-    if ok:
-        lp = loops[0]
-        ok = len(lp.body) == 1 and isinstance(lp.body[0], ast.If) and isinstance(lp.body[0].body[0], ast.Return) \
-            and not lp.orelse and not any(isinstance(x, (ast.Break, ast.Continue)) for x in ast.walk(lp))
-        # the bad-lexeme code follows the loop in the same block
-        blk = None
-        p = parent(lp)
-        for field in ("body", "orelse"):
-            b = getattr(p, field, None)
-            if isinstance(b, list) and any(s is lp for s in b):
-                blk = b
-        after = blk[[i for i, s in enumerate(blk) if s is lp][0] + 1:] if blk else []
-        ok = ok and any("BAD_LEXEME" in text(s) for s in after) and not any(
-            "BAD_LEXEME" in text(s) for s in (blk[:[i for i, s in enumerate(blk) if s is lp][0]] if blk else []))
-    run.ob("R-10.5", f"{gnt.key}::first-match-then-bad-lexeme", ok,
-           "get_next_token does not try every sub-parser before declaring a bad lexeme", loops[0] if loops else gnt.node)
+    n = len(listed)
+    run.require(n >= 1, "anchor vanished: Lexer.parsers is empty")
+    why = None
+    runs = 0
+
+    def scenario(source, matching):
+        sim = LexerSim(prog, source)
+        toks = [TokenStub(f"T{i}", (1, 1), None) for i in range(n)]
+
+        def stub(i):
+            def parser(me):
+                sim.trace.append(("parser", i))
+                return toks[i] if i in matching else None
+            return parser
+        sim.me.__dict__["parsers"] = tuple(stub(i) for i in range(n))
+        out = sim.call("get_next_token")
+        return sim, toks, out
+
+    try:
+        # (a) some sub-parser matches: the parsers before it were tried in order, its token is returned, nothing is reported
+        for k in range(n):
+            for matching in ({k}, set(range(k, n))):
+                sim, toks, out = scenario("@", matching)
+                runs += 1
+                want = [("parser", i) for i in range(k + 1)]
+                if why is None and not (out.kind == "ok" and out.value is toks[k] and sim.trace == want):
+                    why = (f"when sub-parser #{k} is the first to match, the call sequence is "
+                           f"{_show_trace(sim.trace)} and the result {out!r} (expected parsers 0..{k} in order, token of #{k}, no diagnostic)")
+        # (b) no sub-parser matches: all were tried, in order, before BAD_LEXEME is recorded; exactly that character is skipped
+        for ch in _ONE_CHAR_DOMAIN + ["\x00", "\x7f", "\xe9"]:
+            sim, toks, out = scenario(ch, set())
+            runs += 1
+            want = [("parser", i) for i in range(n)] + [("error", "BAD_LEXEME")]
+            if why is None and not (sim.trace[:n + 1] == want and out.kind == "ok" and out.value is None and sim.pos == 1
+                                    and sim.error_names() == ["BAD_LEXEME"]):
+                why = (f"for the unmatchable character {ch!r} the call sequence is {_show_trace(sim.trace)}, result {out!r}, "
+                       f"{sim.pos} character(s) skipped, diagnostics {sim.error_names()} (expected every sub-parser in order, then "
+                       f"one BAD_LEXEME, one character skipped)")
+    except Unsupported as e:
+        raise AnalysisError(f"Lexer.get_next_token is outside the evaluable subset: {e}")
+    loops = [x for x in walk_fn(gnt.node) if isinstance(x, ast.For) and "parsers" in text(x.iter)]
+    run.ob("R-10.5", f"{gnt.key}::first-match-then-bad-lexeme", why is None,
+           "get_next_token does not try every sub-parser before declaring a bad lexeme: " + (why or ""),
+           loops[0] if loops else gnt.node, scenarios=runs)
+
+
+def _show_trace(tr, limit=14) -> str:
+    out = []
+    for kind, what in tr[:limit]:
+        out.append(f"p{what}" if kind == "parser" else f"{what}")
+    return "[" + " ".join(out) + (" ..." if len(tr) > limit else "") + "]"
 
 
 def check(run, prog):
     rule_flow(run, prog)
     rule_raw_advance(run, prog)
+    rule_pop_counts(run, prog)
     rule_tables(run, prog)
     rule_parsers(run, prog)
